@@ -1,12 +1,14 @@
 import MdkVerif.Model.Client
+import MdkVerif.Model.Proposal
 /- line protocol for the `world` engine: replays a harness trace (with the observed event ids and
-   timestamps) on Model.Client and prints `result | fingerprint` per line -/
+   timestamps) on Model.Client + Model.Proposal (every delivery and every commit-building operation goes through the
+   proposal-store-aware functions `deliverP`, `stageCommitP`, … of Model.Proposal) and prints `result | fingerprint` per line -/
 namespace Driver.WorldDrv
-open MdkVerif MdkVerif.Client
+open MdkVerif MdkVerif.Client MdkVerif.Proposal
 
 structure W where
   clients : List Cl
-  events : List Ev
+  events : List PEv
   tokens : List Path
   welcomes : List (Nat × GState) := []     -- add-commit event number ↦ the state its welcome carries
   deriving Inhabited
@@ -16,7 +18,7 @@ def csv (s : String) : List Nat := if s == "-" then [] else (s.splitOn ",").filt
 
 def getCl (w : W) (i : Nat) : Option Cl := w.clients.find? (·.id == i)
 def setCl (w : W) (c : Cl) : W := { w with clients := w.clients.map (fun x => if x.id == c.id then c else x) }
-def getEv (w : W) (n : Nat) : Option Ev := w.events.find? (·.n == n)
+def getEv (w : W) (n : Nat) : Option PEv := w.events.find? (·.e.n == n)
 
 def intern (w : W) (p : Path) : W × Nat :=
   match w.tokens.findIdx? (· == p) with
@@ -40,7 +42,7 @@ def fp (w : W) (c : Cl) : W × String :=
   let recs := joinWith "," ((sortBy recLt c.recs).map (fun p => s!"{p.1}:{recLetter p.2.state}:{optStr p.2.epoch}"))
   -- `I` is the model's number of the nostr group id (0 = the id chosen at creation, v+1 = `data nid v`); the
   -- harness numbers ids by first occurrence, the comparison renumbers both sides by first occurrence
-  (w, s!"E{c.g.recEpoch} T{t} M[{commaNat c.g.members}] A[{commaNat c.g.recAdmins}] N{c.g.recName} D{c.g.recDesc} I{c.g.recNid} R[{commaNat c.g.recRelays}] S{if c.g.active then "a" else "i"} PA[] PR[{commaNat c.g.props}] L{last} X[{msgs}] K[{recs}] Z{c.mgr.length}")
+  (w, s!"E{c.g.recEpoch} T{t} M[{commaNat c.g.members}] A[{commaNat c.g.recAdmins}] N{c.g.recName} D{c.g.recDesc} I{c.g.recNid} R[{commaNat c.g.recRelays}] S{if c.g.active then "a" else "i"} PA[{commaNat (pendingAdded c.g)}] PR[{commaNat (pendingRemoved c.g)}] L{last} X[{msgs}] K[{recs}] Z{c.mgr.length} Q{c.g.props.length + c.g.xq.length} C{if c.g.pending.isSome then 1 else 0}")
 
 /-- `field value` pairs of a `data` line: name / desc tokens, `relays k` = relays 1..k, `admins` a csv of
     client numbers, `nid v` = the id the harness derives from v (model number v+1) -/
@@ -62,8 +64,8 @@ def resStr (r : Res) : String :=
 def withRes (w : W) (c : Cl) (r : Res) : W :=
   let w := setCl w c
   match r with
-  | .ev e => { w with events := w.events ++ [e] }
-  | .proposalCommitted e => { w with events := w.events ++ [e] }
+  | .ev e => { w with events := w.events ++ [{ e := e }] }
+  | .proposalCommitted e => { w with events := w.events ++ [{ e := e }] }
   | _ => w
 
 def exec (w : W) (t : List String) : W × String × Option Nat :=
@@ -84,9 +86,9 @@ def exec (w : W) (t : List String) : W × String × Option Nat :=
     match getCl w (n c) with
     | none => (w, "bad-client", none)
     | some cl =>
-      let (cl', r) := addMembers cl (n ev) (n ts) (n idnum) (csv who)
+      let (cl', r) := addMembersP cl (n ev) (n ts) (n idnum) (csv who)
       let w := match r with
-        | .ev e => { w with welcomes := w.welcomes ++ [(e.n, welcomeState cl.maxPast (ensureSecret cl.g) e)] }
+        | .ev e => { w with welcomes := w.welcomes ++ [(e.n, welcomeStateP cl.maxPast (ensureSecret cl.g) e)] }
         | _ => w
       (withRes w cl' r, resStr r, some (n c))
   | ["join", j, ev] =>
@@ -96,11 +98,11 @@ def exec (w : W) (t : List String) : W × String × Option Nat :=
   | ["send", c, ev, ts, idnum, mid, msgTs, tok] =>
     match getCl w (n c) with
     | none => (w, "bad-client", none)
-    | some cl => let (cl', r) := send cl (n ev) (n ts) (n idnum) (n mid) (n msgTs) (n tok); (withRes w cl' r, resStr r, some (n c))
+    | some cl => let (cl', r) := sendP cl (n ev) (n ts) (n idnum) (n mid) (n msgTs) (n tok); (withRes w cl' r, resStr r, some (n c))
   | ["selfupdate", c, ev, ts, idnum] =>
     match getCl w (n c) with
     | none => (w, "bad-client", none)
-    | some cl => let (cl', r) := stageCommit cl (n ev) (n ts) (n idnum) .selfUpdate false; (withRes w cl' r, resStr r, some (n c))
+    | some cl => let (cl', r) := stageCommitP cl (n ev) (n ts) (n idnum) .selfUpdate false; (withRes w cl' r, resStr r, some (n c))
   | "data" :: c :: ev :: ts :: idnum :: fields =>
     -- data <c> <ev> <ts> <idnum> (<field> <value>)*   — `update_group_data` with the named fields set
     match getCl w (n c) with
@@ -108,11 +110,11 @@ def exec (w : W) (t : List String) : W × String × Option Nat :=
     | some cl =>
       match parseUpd fields {} with
       | none => (w, "bad-op", none)
-      | some u => let (cl', r) := updateData cl (n ev) (n ts) (n idnum) u; (withRes w cl' r, resStr r, some (n c))
+      | some u => let (cl', r) := updateDataP cl (n ev) (n ts) (n idnum) u; (withRes w cl' r, resStr r, some (n c))
   | ["remove", c, j, ev, ts, idnum] =>
     match getCl w (n c) with
     | none => (w, "bad-client", none)
-    | some cl => let (cl', r) := removeMembers cl (n ev) (n ts) (n idnum) (csv j); (withRes w cl' r, resStr r, some (n c))
+    | some cl => let (cl', r) := removeMembersP cl (n ev) (n ts) (n idnum) (csv j); (withRes w cl' r, resStr r, some (n c))
   | ["leave", c, ev, ts, idnum] =>
     match getCl w (n c) with
     | none => (w, "bad-client", none)
@@ -120,7 +122,7 @@ def exec (w : W) (t : List String) : W × String × Option Nat :=
   | ["merge", c] =>
     match getCl w (n c) with
     | none => (w, "bad-client", none)
-    | some cl => let (cl', r) := merge cl; (setCl w cl', resStr r, some (n c))
+    | some cl => let (cl', r) := mergeP cl; (setCl w cl', resStr r, some (n c))
   | ["clear", c] =>
     match getCl w (n c) with
     | none => (w, "bad-client", none)
@@ -133,7 +135,7 @@ def exec (w : W) (t : List String) : W × String × Option Nat :=
     match getCl w (n c), getEv w (n ev) with
     | some cl, some e =>
       let nextEv := match rest with | [x, _, _] => n x | _ => 0
-      let (cl', r) := deliver cl e nextEv
+      let (cl', r) := deliverP cl e nextEv
       -- the auto-committed event's id and timestamp are observed on the implementation
       let r := match r, rest with
         | .proposalCommitted ne, [_, idn, ts] => Res.proposalCommitted { ne with idnum := n idn, ts := n ts }
@@ -145,21 +147,22 @@ def exec (w : W) (t : List String) : W × String × Option Nat :=
     | _, _ => (w, "bad-ref", none)
   | ["rewrap", ev, nn, ts, idnum] =>
     match getEv w (n ev) with
-    | some e => ({ w with events := w.events ++ [{ e with n := n nn, ts := n ts, idnum := n idnum }] }, s!"ev={n nn}", none)
+    | some x => ({ w with events := w.events ++ [{ x with e := { x.e with n := n nn, ts := n ts, idnum := n idnum } }] }, s!"ev={n nn}", none)
     | none => (w, "bad-ref", none)
   | ["retag", ev, j, nn, ts, idnum] =>
     -- the same ciphertext under the nostr group id client j holds now (the `h` tag is not authenticated)
     match getEv w (n ev), getCl w (n j) with
-    | some e, some cl =>
+    | some x, some cl =>
       if !cl.hasGroup then (w, "err:9", none) else
-      ({ w with events := w.events ++ [{ e with n := n nn, ts := n ts, idnum := n idnum, tag := cl.g.recNid }] }, s!"ev={n nn}", none)
+      ({ w with events := w.events ++ [{ x with e := { x.e with n := n nn, ts := n ts, idnum := n idnum, tag := cl.g.recNid } }] }, s!"ev={n nn}", none)
     | _, _ => (w, "bad-ref", none)
   | ["advremove", c, j, nn, ts, idnum] =>
     -- a member's Remove commit built with OpenMLS directly: published, not recorded or staged at the sender
     match getCl w (n c) with
     | some cl =>
       if !cl.hasGroup then (w, "err:9", some (n c)) else
-      ({ w with events := w.events ++ [{ n := n nn, ts := n ts, idnum := n idnum, cipher := n nn, sender := n c, path := cl.g.path, kind := .commit (.removeLeavers [n j]) [], tag := cl.g.recNid }] }, s!"ev={n nn}", some (n c))
+      -- (OpenMLS' `remove_members` consumes the crafter's proposal store like every commit builder)
+      ({ w with events := w.events ++ [{ e := { n := n nn, ts := n ts, idnum := n idnum, cipher := n nn, sender := n c, path := cl.g.path, kind := .commit (.removeLeavers [n j]) cl.g.props, tag := cl.g.recNid, sweptX := cl.g.xq } }] }, s!"ev={n nn}", some (n c))
     | none => (w, "bad-client", none)
   | ["advgce", c, nn, ts, idnum] =>
     -- a member's GroupContextExtensions commit built with OpenMLS directly (it names itself among the admins):
@@ -168,7 +171,20 @@ def exec (w : W) (t : List String) : W × String × Option Nat :=
     match getCl w (n c) with
     | some cl =>
       if !cl.hasGroup then (w, "err:9", some (n c)) else
-      ({ w with events := w.events ++ [{ n := n nn, ts := n ts, idnum := n idnum, cipher := n nn, sender := n c, path := cl.g.path, kind := .commit (.setData { (dataOf cl.g) with admins := [n c] }) [], tag := cl.g.recNid }] }, s!"ev={n nn}", some (n c))
+      ({ w with events := w.events ++ [{ e := { n := n nn, ts := n ts, idnum := n idnum, cipher := n nn, sender := n c, path := cl.g.path, kind := .commit (.setData { (dataOf cl.g) with admins := [n c] }) cl.g.props, tag := cl.g.recNid, sweptX := cl.g.xq } }] }, s!"ev={n nn}", some (n c))
+    | none => (w, "bad-client", none)
+  | ["advprop", c, what, arg, nn, ts, idnum] =>
+    -- a member's stand-alone proposal built with OpenMLS directly (Remove of `arg`, Add of client `arg`'s key package,
+    -- GroupContextExtensions, PSK, Update): published, not kept in the crafter's store, no record at the crafter
+    match getCl w (n c) with
+    | some cl =>
+      if !cl.hasGroup then (w, "err:9", some (n c)) else
+      let pk : Option PK := match what with
+        | "remove" => some (.remove (n arg)) | "add" => some (.add (n arg)) | "gce" => some .gce
+        | "psk" => some .other | "update" => some .update | _ => none
+      match pk with
+      | some p => ({ w with events := w.events ++ [craftProp cl (n nn) (n ts) (n idnum) p] }, s!"ev={n nn}", some (n c))
+      | none => (w, "bad-op", none)
     | none => (w, "bad-client", none)
   | ["fp", c] => (w, "fp", some (n c))
   | _ => (w, "bad-op", none)
